@@ -15,6 +15,8 @@ trap 'cp -f bin/evidence.keep/*.json evidence/ 2>/dev/null; rm -rf bin/evidence.
 for p in mutants/*.patch seeded/*/patch.diff; do
   [ -f "$p" ] || continue
   case "$p" in *"$pat"*) ;; *) continue;; esac
+  # SELFTEST_LIST: a file with one patch path per line restricts the run to those
+  if [ -n "${SELFTEST_LIST:-}" ] && ! grep -qxF "$p" "$SELFTEST_LIST"; then continue; fi
   if [[ "$p" == mutants/* ]]; then id=$(basename "$p" | cut -d- -f1); else id=$(python3 -c "import json,sys;print(json.load(open('$(dirname $p)/meta.json'))['property'])"); fi
   ids="${SELFTEST_IDS:-$id}"
   if ! git -C /repo apply --check "$PWD/$p" 2>/dev/null; then echo "SKIP $p (does not apply)"; report="$report\nSKIP  $p does-not-apply"; continue; fi
@@ -31,8 +33,8 @@ for p in mutants/*.patch seeded/*/patch.diff; do
   else fail=$((fail+1)); echo "MISSED $p (repo tests: $tests)"; report="$report\nMISSED $p tests=$tests"; fi
 done
 echo -e "$report" > bin/selftest.report
-if [ -z "$pat" ]; then
-  { echo "# Last full selftest run"; echo; echo "Generated by ./selftest.sh on /repo at $(git -C /repo log --format=%h -1). Each line: result, patch, the check(s) that reported a VIOLATION, and whether the repository's own Go tests pass with the patch applied."; echo; echo '```'; echo -e "$report" | sed '/^$/d'; echo '```'; echo; echo "caught=$pass missed=$fail"; } > SELFTEST.md
-fi
+# selftest_results.tsv accumulates the latest result per patch (partial runs update only their own lines);
+# SELFTEST.md is regenerated from it after every run.
+python3 tools/selftest_merge.py bin/selftest.report "$(git -C /repo log --format=%h -1)"
 echo "selftest: caught=$pass missed=$fail"
 [ $fail -eq 0 ]
